@@ -15,6 +15,7 @@ R35.d  maxheap: insert counts the element once, bubbles up only past strictly lo
        one of the two directions accepting a tie between the children; both directions relink
        consistently; size and priority are updated; split_and_steal conserves the number of elements
        (|heap| + |new| + 1 = old size) and gives each heap the priority of its top.
+R35.f  hbbuffer: every element chopped off the pushed ring is made a singleton at once (ring_chop leaves its own links alone).
 R35.e  the sizes given to the two halves by split_and_steal are the node counts of the left / right subtree of
        a complete binary tree, for every heap size 3 .. 65535 (the arithmetic is evaluated from the AST).
 """
@@ -133,6 +134,31 @@ def run(ctx):
     rc.expect(len(cas) == 1 and cas[0].args[0].s == '&%s->items[best_index]' % b and cas[0].args[1].s == 'best_context' and cas[0].args[2].s == 'topush', 'push_prio:cas',
               cas[0].loc if cas else f.where(), 'the slot must be claimed by CAS(&items[best_index], best_context, topush): exactly the observed victim is replaced',
               note='CAS(observed slot, observed victim, pushed element)')
+
+    # ------------------------------------------------------------------ chopped element is a singleton
+    # ring_chop repairs the neighbours only: the chopped element keeps its old next / prev (outside paranoid
+    # builds).  The buffer code later uses a stored or refused element directly as a ring (ejected = best_context,
+    # ring_merge(topush, ejected)), so every element taken off the ring must be made a singleton at once.
+    rf = ctx.rule('R35.f', 'hbbuffer: an element chopped off the pushed ring is made a singleton before it is stored, merged or handed on', floor=3)
+    for fn in ('parsec_hbbuffer_push_all', 'parsec_hbbuffer_push_all_by_priority'):
+        f = u.func(fn); ctx.functions_analysed.add(f.name)
+        chops = f.calls('parsec_list_item_ring_chop')
+        if not chops:
+            raise AnalysisBroken('%s no longer takes the elements off the ring with parsec_list_item_ring_chop' % fn)
+        for c in chops:
+            x = c.args[0]
+            while x.k == 'cast':
+                x = x.ch[0]
+            def names(a, x=x):
+                while a.k == 'cast':
+                    a = a.ch[0]
+                return a.s == x.s
+            sing = [g for g in f.calls('parsec_list_item_singleton') if names(g.args[0]) and g.block == c.block and g.idx > c.idx]
+            between = [e for e in f.block_events(c.block) if e.kind == 'call' and sing and c.idx < e.idx < sing[0].idx and any(names(a) for a in e.args)]
+            rf.expect(bool(sing) and not between, '%s:chop-singleton:%s' % (fn, x.s), c.loc,
+                      'the element taken off the ring by ring_chop(%s) keeps its old neighbours: it must be made a singleton (PARSEC_LIST_ITEM_SINGLETON) right away, '
+                      'the eviction / overflow code uses stored and refused elements as rings and would drag the former neighbours along (tasks duplicated and lost)' % x.s,
+                      note='ring_chop(%s) followed by PARSEC_LIST_ITEM_SINGLETON(%s)' % (x.s, x.s))
 
     # ------------------------------------------------------------------ maxheap
     um = ctx.extract('parsec/maxheap.c')
